@@ -30,15 +30,21 @@ BadContent == {Sc("P1", "blob_bad", "", "L2", FALSE), Sc("E", "blob_bad", "", "L
                Sc("E0", "blob_bad", "", "L3", FALSE), Sc("P2", "man_bad", "", "M2", FALSE)}
 Boundaries == {Sc("P1", "blob_put", "", "L0", FALSE), Sc("E", "blob_put", "", "L0", FALSE), Sc("P1", "blob_put", "", "LK", FALSE),
                Sc("P1", "blob_put", "", "LK1", FALSE)}
+\* shape of the stored content: a tag on a cache-export index (blob entries) and on a nested index
+Shapes == {Sc("PB", "put_tag", "v2", "M2", TRUE), Sc("PB", "tag_delete", "v1", "", TRUE), Sc("PB", "man_delete", "", "IB", TRUE),
+           Sc("PB", "blob_put", "", "L3", FALSE), Sc("PB", "tag_delete", "cache", "", TRUE), Sc("PB", "retag", "c2", "IB", TRUE),
+           Sc("PB", "tag_delete", "nest", "", TRUE), Sc("E", "copy", "cache", "IB", TRUE), Sc("P1", "copy", "cache", "IB", TRUE),
+           Sc("PB", "import", "v3", "M3", TRUE)}
 Retags == {Sc("P2", "retag", "v3", "M1", FALSE), Sc("P2", "retag", "v2", "M1", TRUE)}
 \* image copy with referrers: kept apart, its interrupted form is not repaired by a repetition (findings/C07-2.md)
 RefCopy == {Sc("E", "copy_ref", "v1", "M1", TRUE), Sc("P1", "copy_ref", "v1", "M1", TRUE)}
 RefCopyQ == {Sc("P1", "copy_ref", "v1", "M1", TRUE)}
 Main == FromEmpty \cup OneTag \cup TwoTags \cup WithIndex \cup WithReferrers \cup WithLeftovers \cup Retags \cup BadContent \cup Boundaries
-Populated == (OneTag \cup TwoTags \cup WithIndex \cup WithReferrers \cup WithLeftovers \cup Retags \cup BadContent \cup Boundaries)
-             \ {s \in BadContent \cup Boundaries : s.start \in {"E", "E0"}}
+        \cup Shapes
+Populated == (OneTag \cup TwoTags \cup WithIndex \cup WithReferrers \cup WithLeftovers \cup Retags \cup BadContent \cup Boundaries
+             \cup Shapes) \ {s \in BadContent \cup Boundaries \cup Shapes : s.start \in {"E", "E0"}}
 All == Main \cup RefCopy
-IxCopy == {Sc("E", "copy", "ix", "IX", TRUE), Sc("P1", "copy", "ix", "IX", TRUE)}
+IxCopy == {Sc("E", "copy", "ix", "IX", TRUE), Sc("P1", "copy", "ix", "IX", TRUE), Sc("E", "copy", "nest", "IN", TRUE)}
 \* quick tier: without the two scenarios that copy a two-image index from scratch with one goroutine per blob
 Quick == Main \ {Sc("E", "copy", "ix", "IX", TRUE), Sc("P1", "copy", "ix", "IX", TRUE)}
 =============================================================================
